@@ -464,6 +464,7 @@ class ChunkResult:
     nontrivial: list[int] = field(default_factory=list)
     schedules: list[int] = field(default_factory=list)
     digests: dict[int, str] = field(default_factory=dict)
+    digest_traces: dict[int, list[str]] = field(default_factory=dict)
     samples: list[Any] = field(default_factory=list)
     violations: list[tuple[int, dict[str, list[list[int]]], Violation]] = field(
         default_factory=list
@@ -493,6 +494,7 @@ def _run_chunk(args: tuple[str, int, int, int, int, int]) -> ChunkResult:
             if i < n_digest:
                 assert res.trace is not None
                 out.digests[i] = digest_of(res.trace)
+                out.digest_traces[i] = [ln[:400] for ln in res.trace[:40]]
             if i < n_samples:
                 out.samples.append(
                     {"run": i, "seed": derive_seed(prop, vseed, i), "trace": res.trace}
@@ -529,6 +531,7 @@ class BatchResult:
     nontrivial_saturated: bool = False
     schedules: set[int] = field(default_factory=set)
     digests: dict[int, str] = field(default_factory=dict)
+    digest_traces: dict[int, list[str]] = field(default_factory=dict)
     samples: list[Any] = field(default_factory=list)
     violations: list[tuple[int, dict[str, list[list[int]]], Violation]] = field(
         default_factory=list
@@ -608,6 +611,7 @@ def _merge(br: BatchResult, r: ChunkResult) -> None:
     if len(br.schedules) < _SET_CAP:
         br.schedules.update(r.schedules)
     br.digests.update(r.digests)
+    br.digest_traces.update(r.digest_traces)
     br.samples.extend(r.samples)
     br.violations.extend(r.violations)
 
@@ -732,6 +736,7 @@ def check(prop: str, tier: str) -> int:
         fresh.kill()
         return 2
     local: dict[int, str] = {}
+    local_traces: dict[int, list[str]] = {}
     for i in range(n_self):
         r1, rec = run_seeded(eng, vseed, i, True)
         r2, _ = run_seeded(eng, vseed, i, True)
@@ -745,6 +750,7 @@ def check(prop: str, tier: str) -> int:
             fresh.kill()
             return 2
         local[i] = d1
+        local_traces[i] = [ln[:400] for ln in (r1.trace or [])[:40]]
 
     # -- the batch ------------------------------------------------------------
     try:
@@ -776,6 +782,12 @@ def check(prop: str, tier: str) -> int:
                 f"HARNESS-NONDETERMINISM: run {i}: digest in this process {local[i]}, "
                 f"worker {br.digests.get(i)}, fresh interpreter (PYTHONHASHSEED={hs_other}) {fd.get(i)}"
             )
+            print("  trace in this process:")
+            for ln in local_traces.get(i, []):
+                print("    " + ln)
+            print("  trace in the forked worker:")
+            for ln in br.digest_traces.get(i, []):
+                print("    " + ln)
             return 2
     print(
         f"[{prop}] determinism self-test: {n_self} runs x (2 in-process + from-record + "
